@@ -74,6 +74,7 @@ func scenarioClient(sp Spec, oc *Outcome) {
 			oc.SetupErr = err.Error()
 			return
 		}
+		sc.setupMode, sc.redirect = sp.ScriptSetup, sp.Redirect
 		script = sc
 		addr = sc.ln.Addr().String()
 	case "mute":
